@@ -214,10 +214,18 @@ def opkw(line):
     return line.split(" ", 1)[0]
 
 
+FAULT_RE = re.compile(r" => fault api:(\w+)")
+NAMED_ERRORS = {"OutputOverflow", "HttpParseTooManyHeaders"}
+
+
 def canon(kw, line):
     """What of a result line takes part in the comparison. `reason`: C10 asks that a reason is given exactly when
     the connection must close and that it names a condition that holds (judged by the oracle); WHICH of several
     holding conditions is named is not constrained, so only given / not given is compared with the model."""
+    m = FAULT_RE.search(line)
+    if m and m.group(1) not in NAMED_ERRORS:
+        # "is refused" / "an error": the properties name two error kinds only (output overflow, too many headers)
+        line = line[:m.start()] + " => fault api:*" + line[m.end():]
     if kw == "reason" and " => str " in line:
         head, rest = line.split(" => str ", 1)
         txt, _, st = rest.rpartition(" @")
